@@ -76,6 +76,9 @@ func (x *Explorer) doCall(fr *frame, in ssa.Instruction, ev Event, site *ssa.Cal
 	res := x.T.mk(Term{Kind: KCall, N: x.next(), Ref: calleeRef(&ev), Args: ev.Args, Type: resType})
 	ev.Result = res
 	x.havocCall(in, &ev)
+	if x.Opts.AfterCall != nil {
+		x.Opts.AfterCall(x, &ev)
+	}
 	if x.event(ev) {
 		return
 	}
@@ -255,6 +258,10 @@ func (x *Explorer) builtin(fr *frame, in ssa.Instruction, ev *Event, resType typ
 		}
 		res := x.T.mk(Term{Kind: KCall, N: x.next(), Ref: "copy", Args: args, Type: types.Typ[types.Int]})
 		ev.Result = res
+		// 0 <= n <= len(dst), n <= len(src)
+		x.tighten(res, 0, true)
+		x.AssumeLEq(res, x.Len(args[0]))
+		x.AssumeLEq(res, x.Len(args[1]))
 		return res
 	case "delete":
 		x.epoch = x.next()
